@@ -7,6 +7,7 @@ package l2
 import (
 	"fmt"
 	"math/rand"
+	"net"
 	"os"
 	"path/filepath"
 	"sync"
@@ -155,6 +156,9 @@ type ClientOpts struct {
 	// default of 5 s): how long sendTransaction waits for peers that never
 	// react to its inv.
 	BroadcastTimeout time.Duration
+	// NameResolver is neutrino.Config.NameResolver (nil = the client's default,
+	// net.LookupIP, as before).
+	NameResolver func(host string) ([]net.IP, error)
 }
 
 // StartClient creates and starts the real ChainService connected to the
@@ -184,7 +188,7 @@ func (w *World) StartClient(addrs []string, o ClientOpts) error {
 		ChainParams:     *w.G.P,
 		ConnectPeers:    addrs,
 		Dialer:          w.Net.Dial,
-		NameResolver:    nil,
+		NameResolver:    o.NameResolver,
 		PersistToDisk:   o.PersistToDisk,
 		FilterCacheSize: o.FilterCache,
 		BlockCacheSize:  o.BlockCache,
